@@ -9,6 +9,7 @@ pub fn run(unit: &str, args: &[String]) -> String {
         "bx_payload" => crate::tag_writer::verif_bx_writer::unit_payload(),
         "bx_iter_bytes" => crate::tag_iterator::verif_bx_iter::unit_bytes(num(0, 4), flag("thorough")),
         "bx_iter_docs" => crate::tag_iterator::verif_bx_iter::unit_docs(num(0, 3), flag("thorough")),
+        "bx_iter_sizes" => crate::tag_iterator::verif_bx_iter::unit_sizes(),
         "bx_iter_ioerr" => crate::tag_iterator::verif_bx_iter::unit_ioerr(),
         "bx_path" => crate::spec_util::verif_bx_path::unit_path(num(0, 2), num(1, 3)),
         _ => return format!("{{\"error\":\"unknown unit {}\"}}", unit),
